@@ -74,6 +74,16 @@ def sweep(tier, seed):
                     bad = _read_and_judge(read_env, root, names, fname, env, {name}, label, f'{name} replaced by {what}', TaskStatus)
                     if bad:
                         fails.append(bad)
+                # a file that unpickles to an environment whose entry carries something that is not a status: otherwise unreadable -> not done, no exception
+                from valjean.cosette.env import Env as _Env
+                for weird in ('DONE', None, 0, 42, 2.5, b'DONE', [3]):
+                    n += 1
+                    with open(path, 'wb') as f:
+                        pickle.dump(_Env({name: {'status': weird, 'output_dir': os.path.join(root, name), 'result': 'x'}}), f)
+                    bad = _read_and_judge(read_env, root, names, fname, env, {name}, label, f'{name} holds an entry whose status is {weird!r}', TaskStatus)
+                    if bad:
+                        fails.append(bad)
+                        break
                 n += 1
                 os.remove(path)
                 bad = _read_and_judge(read_env, root, names, fname, env, {name}, label, f'{name} missing', TaskStatus)
@@ -137,10 +147,107 @@ def sweep(tier, seed):
                     break
         finally:
             shutil.rmtree(root, ignore_errors=True)
+    # the whole command: sequences of `valjean run` (RunCommand.execute) on a 3-task job (a <- b <- c, b also hard-depends on nothing else); between two runs a
+    # task may start failing and an environment file may be damaged.  After EVERY run, reading back gives exactly the DONE entries of the environment the run returned.
+    for hist in command_histories(tier):
+        n += 1
+        bad = _command_history(hist, fname)
+        if bad:
+            fails.append({'input': {'runs_of_the_command': hist}, 'observed': bad, 'expected': 'after each run read_env returns exactly the entries the run left DONE'})
     return {'name': 'persisted-environments-native', 'evaluations': n, 'distinct': n, 'failures': fails[:8], 'exhaustive': True,
             'bound': '6 sample environments (all statuses, nested / binary payloads, with and without output directories); write_env then read_env: intact, '
-                     'every byte prefix of every written file (one damaged file at a time), empty, missing, garbage and foreign pickles; two-run histories DONE -> FAILED / SKIPPED / WAITING; re-writing an existing DONE file with a FAILED / DONE entry in a child process killed after k bytes (k = 0..39, every 7th, all)',
+                     'every byte prefix of every written file (one damaged file at a time), empty, missing, garbage, foreign pickles and environments whose entry holds a non-status (string, None, numbers, bytes, list); two-run histories DONE -> FAILED / SKIPPED / WAITING; re-writing an existing DONE file with a FAILED / DONE entry in a child process killed after k bytes (k = 0..39, every 7th, all); 2-3 successive runs of the real RunCommand.execute on a 3-task job with failing tasks and damaged files in between',
             'samples': [{'env': 'one-done', 'damage': 'solo truncated at byte 17'}]}
+
+
+JOB_SRC = """
+from pathlib import Path
+from valjean.cosette.pythontask import PythonTask
+from valjean.cosette.task import TaskStatus
+
+ROOT = Path({root!r})
+
+
+def mk(name, deps):
+    def fn(*, env, config):
+        out = Path(config.query('path', 'output-root'), name)
+        out.mkdir(parents=True, exist_ok=True)
+        counter = ROOT / (name + '.count')
+        k = int(counter.read_text()) + 1 if counter.exists() else 1
+        counter.write_text(str(k))
+        if (ROOT / (name + '.fail')).exists():
+            return {{name: {{'output_dir': str(out), 'result': 'failed run %d' % k}}}}, TaskStatus.FAILED
+        return {{name: {{'output_dir': str(out), 'result': 'run %d' % k, 'saw': sorted(d.name for d in deps)}}}}, TaskStatus.DONE
+    return PythonTask(name, fn, env_kwarg='env', config_kwarg='config', deps=deps)
+
+
+def job():
+    a = mk('a', [])
+    b = mk('b', [a])
+    c = mk('c', [b])
+    return [c]
+"""
+
+
+def command_histories(tier):
+    '''each run: (tasks that fail in this run, files damaged before this run)'''
+    base = [
+        [((), ()), (('a',), ('a',))],                       # a's file damaged and a fails: b, c restored DONE then SKIPPED
+        [((), ()), (('b',), ('b',))],
+        [((), ()), ((), ('a',)), ((), ())],                 # a re-executed: b and c re-run
+        [(('b',), ()), ((), ())],                           # b fails first, recovers
+        [((), ()), (('a',), ('a',)), ((), ())],
+        [((), ()), ((), ('c',))],
+        [((), ()), (('c',), ('b',))],
+    ]
+    return base if tier == 'quick' else base + [[((), ()), (f, d), ((), ())] for f in (('a',), ('b',), ('c',)) for d in ((), ('a',), ('b',), ('c',))]
+
+
+def _command_history(hist, fname):
+    import argparse
+    from valjean.config import Config
+    from valjean.cambronne.commands.run import RunCommand
+    from valjean.cambronne.common import read_env
+    from valjean.cosette.task import TaskStatus
+    tmp = tempfile.mkdtemp(prefix='c14cmd_', dir='/var/tmp')
+    try:
+        root = os.path.join(tmp, 'output')
+        job_file = os.path.join(tmp, 'job_c14.py')
+        with open(job_file, 'w') as f:
+            f.write(JOB_SRC.format(root=tmp))
+        config = Config({'path': {'log-root': os.path.join(tmp, 'log'), 'output-root': root, 'report-root': os.path.join(tmp, 'report')}})
+        names = ['a', 'b', 'c']
+        for k, (failing, damaged) in enumerate(hist):
+            for nm in names:
+                flag = os.path.join(tmp, nm + '.fail')
+                if nm in failing:
+                    open(flag, 'w').write('x')
+                elif os.path.exists(flag):
+                    os.remove(flag)
+            for nm in damaged:
+                pth = os.path.join(root, nm, fname)
+                if os.path.exists(pth):
+                    data = open(pth, 'rb').read()
+                    with open(pth, 'wb') as f:
+                        f.write(data[:len(data) // 2])
+            args = argparse.Namespace(job_file=job_file, job_args=[], job_kwargs={}, workers=2, env_filename=fname, env_format='pickle')
+            try:
+                env = RunCommand().execute(args, config)
+            except Exception as e:      # noqa
+                return f'run {k + 1} raised {e!r}'
+            try:
+                back = read_env(root=root, names=names, filename=fname, fmt='pickle')
+            except Exception as e:      # noqa
+                return f'reading back after run {k + 1} raised {e!r}'
+            want = {nm: dict(env[nm]) for nm in names if nm in env and env[nm].get('status') == TaskStatus.DONE and 'output_dir' in env[nm]}
+            got = {nm: dict(v) for nm, v in back.items()}
+            if got != want:
+                st = {nm: getattr(env[nm].get('status'), 'name', None) for nm in names if nm in env}
+                return (f'after run {k + 1} the tasks ended {st}; reading back reports {sorted(got)} as DONE '
+                        f'(entries equal to those of the run: {[nm for nm in got if got.get(nm) == want.get(nm)]}), expected exactly {sorted(want)}')
+    finally:
+        shutil.rmtree(tmp, ignore_errors=True)
+    return None
 
 
 def _dump_len(env, name):
